@@ -26,6 +26,6 @@ for d in sorted(glob.glob("/verif/seeded/*/meta.json")):
 table = "| seeded change | property | needs, in order to manifest | caught by | first signatures | history |\n|---|---|---|---|---|---|\n" + "\n".join(rows) + "\n"
 p = "/verif/DESIGN.md"
 s = open(p).read()
-s = re.sub(r"<!-- SEEDED-TABLE -->.*?<!-- /SEEDED-TABLE -->", "<!-- SEEDED-TABLE -->\n" + table + "<!-- /SEEDED-TABLE -->", s, flags=re.S)
+s = re.sub(r"<!-- SEEDED-TABLE -->.*?<!-- /SEEDED-TABLE -->", lambda _m: "<!-- SEEDED-TABLE -->\n" + table + "<!-- /SEEDED-TABLE -->", s, flags=re.S)
 open(p, "w").write(s)
 print(len(rows), "rows")
